@@ -171,6 +171,32 @@ def _shard_entry(a):
         return ('HARNESS', traceback.format_exc())
 
 
+def isolated(f, *a):
+    """f(*a) in a forked child (result pickled back): the call can neither see nor leave library state"""
+    import pickle
+    r, w = os.pipe()
+    pid = os.fork()
+    if pid == 0:
+        os.close(r)
+        try:
+            data = pickle.dumps(('ok', f(*a)))
+        except BaseException as ex:
+            data = pickle.dumps(('exc', '%s: %s' % (type(ex).__name__, ex)))
+        with os.fdopen(w, 'wb') as fh:
+            fh.write(data)
+        os._exit(0)
+    os.close(w)
+    with os.fdopen(r, 'rb') as fh:
+        data = fh.read()
+    os.waitpid(pid, 0)
+    if not data:
+        harness_error('isolated call died without a result')
+    kind, val = pickle.loads(data)
+    if kind == 'exc':
+        harness_error('isolated call raised ' + val)
+    return val
+
+
 def run_sharded(func, args=(), nshards=None, procs=None):
     """Run func(shard, nshards, *args) -> Part for every shard, merge.
     func must be a module-level function.  Workers are forked from this process
@@ -187,7 +213,9 @@ def run_sharded(func, args=(), nshards=None, procs=None):
         return total
     ctx = multiprocessing.get_context('fork')
     sys.stdout.flush()
-    with ctx.Pool(procs) as pool:
+    # maxtasksperchild=1: every shard runs in a fresh fork of this process, so whatever state the library keeps between
+    # calls cannot travel from one shard to the next (which shard a worker gets next depends on timing)
+    with ctx.Pool(procs, maxtasksperchild=1) as pool:
         it = pool.imap_unordered(_shard_entry, [(func, s, nshards, args) for s in range(nshards)])
         for _ in range(nshards):
             try:
